@@ -318,6 +318,48 @@ def run(chk: Check) -> None:
             if not ok:
                 chk.fail("attributes", f"max_age={ma!r} expires={exp!r}: attributes {pieces!r}", {"max_age": repr(ma), "expires": repr(exp), "header": hdr})
             chk.case(("sync", repr(ma), repr(exp)), True)
+    # Expires given as an instant (datetime of every flavour, or a timestamp): the attribute is the IMF-fixdate of that
+    # instant in GMT - whatever tzinfo object carries the offset (zero-offset zones that are not the timezone.utc
+    # singleton included) - and nothing raises
+    class _Z(_dt.tzinfo):
+        def __init__(self, minutes):
+            self.m = minutes
+
+        def utcoffset(self, dt):
+            return _dt.timedelta(minutes=self.m)
+
+        def dst(self, dt):
+            return None
+
+        def tzname(self, dt):
+            return "Z%d" % self.m
+    zones = [None, _dt.timezone.utc, _dt.timezone(_dt.timedelta(0)), _dt.timezone(_dt.timedelta(0), "X"),
+             _dt.timezone(_dt.timedelta(hours=5, minutes=30)), _dt.timezone(_dt.timedelta(hours=-8)), _Z(0), _Z(60), _Z(-90)]
+    try:
+        from zoneinfo import ZoneInfo
+        zones += [ZoneInfo("UTC"), ZoneInfo("Europe/London"), ZoneInfo("America/New_York")]
+    except Exception:  # noqa: BLE001  (no tzdata: the custom zero-offset zone above covers the case)
+        pass
+    import re as _re
+    imf = _re.compile(r"^(Mon|Tue|Wed|Thu|Fri|Sat|Sun), \d{2} (Jan|Feb|Mar|Apr|May|Jun|Jul|Aug|Sep|Oct|Nov|Dec) \d{4} \d{2}:\d{2}:\d{2} GMT$")
+    for i in range(120 if quick else 3000):
+        z = zones[i % len(zones)]
+        base = _dt.datetime(rng.choice([1971, 1999, 2000, 2024, 2026, 2038, 2100]), rng.randint(1, 12), rng.randint(1, 28),
+                            rng.randint(0, 23), rng.randint(0, 59), rng.randint(0, 59), rng.choice([0, 0, 999999]))
+        dt = base.replace(tzinfo=z)
+        instant = (dt if z is not None else base.replace(tzinfo=_dt.timezone.utc)).timestamp()
+        arg = dt if i % 5 else rng.choice([int(instant), float(instant)])
+        try:
+            hdr = whttp.dump_cookie("k", "v", expires=arg, path=None)
+            val = dict(p.split("=", 1) for p in hdr.split("; ")[1:] if "=" in p).get("Expires")
+            got = whttp.parse_date(val) if val is not None else None
+            ok = val is not None and imf.match(val) is not None and got is not None and int(got.timestamp()) == int(instant // 1)
+            what = f"Expires attribute {val!r}"
+        except Exception as e:  # noqa: BLE001
+            ok, what, hdr = False, f"raised {type(e).__name__}: {e}", None
+        if not ok:
+            chk.fail("expires-instant", f"dump_cookie(expires={arg!r}): {what}, instant {instant}", {"expires": repr(arg), "header": hdr})
+        chk.case(("expdt", repr(arg)), True)
     for (k, v, dom, exp, ma, sec, ho, path, ss, part) in attr_cases:
         rdom = dom.partition(":")[0].lstrip(".").encode("idna").decode("ascii") if dom else None
         rpath = quote(path, safe="%!$&'()*+,/:=@") if path is not None else None
